@@ -87,8 +87,11 @@ type Case struct {
 
 var caseSets = map[string]func(tier string, emit func(op string, fields ...string)){}
 
-const caseTimeout = 3 * time.Second
-const maxHangs = 4
+// first pass (16 workers in parallel): a case that does not return within caseTimeout is set aside and
+// run again on its own with retryTimeout; only then is it reported as "HANG"
+const caseTimeout = 5 * time.Second
+const retryTimeout = 10 * time.Second
+const maxHangs = 32
 
 // runAll runs the implementation on every case (in parallel, output in order).
 // A panic is reported as "PANIC", a case that does not return within caseTimeout
@@ -131,7 +134,9 @@ func runAll(cases []Case) {
 				case r := <-done:
 					results[i] = r
 				case <-time.After(caseTimeout):
-					results[i] = "HANG"
+					// not a verdict yet: the machine may just be busy; the case is run again on
+					// its own, with nothing else running, after the pool has finished
+					results[i] = "HANG?"
 					mu.Lock()
 					hangs++
 					mu.Unlock()
@@ -140,6 +145,27 @@ func runAll(cases []Case) {
 		}()
 	}
 	wg.Wait()
+	for i := range cases {
+		if results[i] != "HANG?" {
+			continue
+		}
+		done := make(chan string, 1)
+		go func(c Case) {
+			defer func() {
+				if r := recover(); r != nil {
+					done <- "PANIC " + hexs(fmt.Sprint(r))
+				}
+			}()
+			done <- runCase(c)
+		}(cases[i])
+		select {
+		case r := <-done:
+			results[i] = r
+			hangs--
+		case <-time.After(retryTimeout):
+			results[i] = "HANG"
+		}
+	}
 	out := bufio.NewWriterSize(os.Stdout, 1<<20)
 	for i, c := range cases {
 		out.WriteString(c.Op)
